@@ -6,6 +6,7 @@
 From Coq Require Import Reals Lra List Bool Arith String.
 From CB Require Import Base.Vec3 Model.C09_Transform Proofs.C09_Leaves Proofs.C09_Commute Proofs.C09_Equivariance Proofs.C09_Traverse Proofs.C09_Heap Proofs.C09_ArcLength Proofs.C09_Main Proofs.C09_Output.
 From CB Require Import Gen.C09.Tables.
+From CB Require Import Proofs.SourceEqTac Gen.C09.Source Proofs.C09_SourceEq.
 Import ListNotations.
 Open Scope R_scope.
 
@@ -229,6 +230,67 @@ Definition C09_tables_nonempty_stmt : Prop :=
 Theorem C09_tables_nonempty : C09_tables_nonempty_stmt.
 Proof. vm_compute. repeat split; repeat constructor. Qed.
 
+(** ** the leaf models are the source (translate, scale, mirror)
+
+    Gen/C09/Source.v: the translation (harness/translate_np.py, regenerated from the working tree on every run, fail
+    closed) of functions.scale / mirror_matrix / mirror / unit_vector / norm, Point.translate / scale / mirror and
+    Array.translate / scale / mirror (an Array row-wise: one row of [self.points]); [origin=None] is a specialisation of
+    its own (the [_default] functions).  [Some y] = read in exact real arithmetic, the attribute ([position] / the row
+    of [points]) has the value y when the method returns; [None] = no real-number reading (the zero normal of a mirror:
+    numpy's nan).  The translated functions equal the leaves of Model/C09_Transform.v for all arguments (mirror: for
+    every non-zero normal, i.e. [valid (TMirror n o)], the hypothesis of [C09_leaf_affine]); hence (last conjunct)
+    [C09_leaf_affine] is a theorem about the translated source.  rotate / rotation_matrix (scipy.linalg.expm) are NOT
+    translated: the rotate leaves stay tied by the sampled interval correspondence. *)
+Definition C09_source_is_model_stmt : Prop :=
+  (forall tol p r o, src_scale tol p r o = Some (f_scale p r o))
+  /\ (forall tol n, exists m, src_mirror_matrix tol n = Some m
+        /\ (forall v, s_vM v m = mirror_vM n v) /\ (forall v, s_vM v (s_MT m) = mirror_vMT n v) /\ (forall v, s_Mv m v = mirror_vM n v))
+  /\ (forall tol p n o, n <> vzero -> src_mirror tol p n o = Some (f_mirror p n o))
+  /\ (forall tol p o, src_mirror tol p vzero o = None)
+  /\ (forall tol p d,
+        src_Point_translate tol p d = Some (leaf_point (TTranslate d) p)
+        /\ src_Array_translate tol p d = Some (leaf_row (TTranslate d) p))
+  /\ (forall tol p r o,
+        src_Point_scale tol p r o = Some (leaf_point (TScale r o) p)
+        /\ src_Array_scale tol p r o = Some (leaf_row (TScale r o) p)
+        /\ src_Point_scale_default tol p r = Some (leaf_point (TScale r vzero) p)
+        /\ src_Array_scale_default tol p r = Some (leaf_row (TScale r vzero) p))
+  /\ (forall tol p n o, valid (TMirror n o) ->
+        src_Point_mirror tol p n o = Some (leaf_point (TMirror n o) p)
+        /\ src_Array_mirror tol p n o = Some (leaf_row (TMirror n o) p)
+        /\ src_Point_mirror_default tol p n = Some (leaf_point (TMirror n vzero) p)
+        /\ src_Array_mirror_default tol p n = Some (leaf_row (TMirror n vzero) p))
+  /\ (forall tol p d r o n, r <> 0 -> 0 < norm2 n ->
+        src_Point_translate tol p d = Some (image_pos (TTranslate d) p)
+        /\ src_Array_translate tol p d = Some (image_pos (TTranslate d) p)
+        /\ src_Point_scale tol p r o = Some (image_pos (TScale r o) p)
+        /\ src_Array_scale tol p r o = Some (image_pos (TScale r o) p)
+        /\ src_Point_mirror tol p n o = Some (image_pos (TMirror n o) p)
+        /\ src_Array_mirror tol p n o = Some (image_pos (TMirror n o) p)).
+
+Theorem C09_source_is_model : C09_source_is_model_stmt.
+Proof.
+  split; [exact src_scale_eq|]. split; [exact src_mirror_matrix_eq|]. split; [exact src_mirror_eq|].
+  split; [exact src_mirror_zero|].
+  split; [intros tol p d; split; [apply src_Point_translate_eq | apply src_Array_translate_eq]|].
+  split; [intros tol p r o; split; [|split; [|split]];
+          [apply src_Point_scale_eq | apply src_Array_scale_eq | apply src_Point_scale_default_eq | apply src_Array_scale_default_eq]|].
+  split.
+  - intros tol p n o H. pose proof (nonzero_of_norm2_pos n H) as Hn. split; [|split; [|split]];
+      [apply src_Point_mirror_eq | apply src_Array_mirror_eq | apply src_Point_mirror_default_eq | apply src_Array_mirror_default_eq]; exact Hn.
+  - intros tol p d r o n Hr H. pose proof (nonzero_of_norm2_pos n H) as Hn.
+    destruct (C09_leaf_affine (TTranslate d) p I) as [T1 T2].
+    destruct (C09_leaf_affine (TScale r o) p Hr) as [S1 S2].
+    destruct (C09_leaf_affine (TMirror n o) p H) as [M1 M2].
+    rewrite <- T1 at 1. rewrite <- T2. rewrite <- S1 at 1. rewrite <- S2. rewrite <- M1 at 1. rewrite <- M2.
+    split; [|split; [|split; [|split; [|split]]]]; [apply src_Point_translate_eq | apply src_Array_translate_eq | apply src_Point_scale_eq | apply src_Array_scale_eq
+                  | apply src_Point_mirror_eq; exact Hn | apply src_Array_mirror_eq; exact Hn].
+Qed.
+
+(** the hypotheses are satisfiable *)
+Example C09_source_is_model_hyp_sat : valid (TMirror (0, 0, 1) vzero) /\ (2 <> 0).
+Proof. split; [unfold valid, norm2; vec_simpl; lra | lra]. Qed.
+
 Print Assumptions C09_leaf_affine.
 Print Assumptions C09_rotation_spec.
 Print Assumptions C09_reflection_spec.
@@ -249,3 +311,4 @@ Print Assumptions C09_alias_free_classes.
 Print Assumptions C09_copy_fresh_classes.
 Print Assumptions C09_args_unmodified.
 Print Assumptions C09_tables_nonempty.
+Print Assumptions C09_source_is_model.
